@@ -103,7 +103,7 @@ class TLCResult:
 
 
 def run_tlc(module, cfg_text, env=None, workers=None, simulate=None, depth=None, coverage=False,
-            timeout=3000, extra=None, name=None, java_opts=None, allow_fail=False, deadlock=False):
+            timeout=3000, extra=None, name=None, java_opts=None, allow_fail=False, deadlock=False, modules=None):
     """Run TLC on spec/<module>.tla with the given cfg text inside the scratch dir. Returns TLCResult."""
     sc = scratch()
     name = name or module
@@ -112,6 +112,9 @@ def run_tlc(module, cfg_text, env=None, workers=None, simulate=None, depth=None,
     for f in os.listdir(SPEC):
         if f.endswith('.tla'):
             os.symlink(os.path.join(SPEC, f), os.path.join(wd, f))
+    for mname, mtext in (modules or {}).items():
+        with open(os.path.join(wd, mname + '.tla'), 'w') as fh:
+            fh.write(mtext)
     cfg = os.path.join(wd, name + '.cfg')
     with open(cfg, 'w') as fh:
         fh.write(cfg_text)
